@@ -18,6 +18,16 @@ Campaigns
      cases through the Python API are written, with all inputs as bit patterns and the Python
      outputs, to .work/py-<hash>/cases.jsonl; `cvharness pyfront <file>` rebuilds every case with
      the Rust API and compares words and decoded symbols (harness/src/pyfront.rs).
+     Every numpy array handed to the front end (per-symbol parameter arrays, probability matrices,
+     symbol arrays, word arrays a decoder is built from) is passed in a memory layout drawn from
+     LAYOUTS1 / LAYOUTS2 (reversed, strided, column of a matrix, offset, broadcast; F-ordered /
+     transposed / sliced matrices); the case records the *logical* contents, from which the Rust
+     side computes its reference.  `Gen.layout_sweep` adds every family x layout x coder once.
+     `HIST C06.py.layout.<family>.<layout>`; for probability tables `…layout_accepted.cat.<layout>` /
+     `…layout_refused.cat.<layout>` (+ `_total`): a clean TypeError for a non-contiguous table is
+     legal, an accepted table must give the words of its logical contents (D28, fixed by a04f314:
+     F-ordered matrices of a Categorical family were read in memory order; the reproducer is part
+     of `documented_cases`).  Decoding uses the same views, C-contiguous copies, or another layout.
  (c) constructor error mapping (C19): invalid (and valid-but-extreme) constructor / parameter
      inputs.  Outcome classes: raise (regular `Exception`), panic (`pyo3_runtime.PanicException`,
      a `BaseException`; the interpreter survives), abort (the interpreter died), ok (a model came
@@ -26,6 +36,10 @@ Campaigns
      accepts "an error value or a panic" as a clean failure, so by default a panic is reported
      as HIST/SAMPLE lines only; with PYFRONT_PANIC=fail it becomes `FAIL C19` (strict reading:
      the Python layer should map every constructor error to ValueError).
+     `split_ctor_cases`: every parameterised family x every split of its parameters between
+     constructor and encode/decode call x invalid values at the constructor and at the first /
+     middle / last entry of a per-symbol array; the call must raise for every message, or every
+     in-support symbol must round-trip (`split` in CTOR_PRELUDE); `HIST C19.py.split.<family>.<split>.<outcome>`.
 
 Environment: VERIF_REPO (repository to check), PYFRONT_HARNESS (cvharness binary to use),
 PYFRONT_PANIC=fail|note, PYFRONT_SKIP_BUILD=1 (reuse the existing .so).
@@ -162,7 +176,7 @@ class Report:
             out.write("EVAL %s %d\n" % (k, self.evals[k]))
         for k in sorted(self.hist):
             out.write("HIST %s %d\n" % (k, self.hist[k]))
-        for k in sorted(self.samples):
+        for k in sorted(self.samples, key=lambda k: ("." not in k, k)):      # sub-keyed samples first
             for t in self.samples[k]:
                 out.write("SAMPLE %s %s\n" % (k.split(".")[0], t))   # "C19.1raise" -> C19 (ordering only)
         for e in self.errors:
@@ -340,6 +354,83 @@ def bits_f64(b):
 I32_MIN, I32_MAX = -2**31, 2**31 - 1
 
 
+# memory layouts of rank-1 arrays (parameters, symbols) and of rank-2 probability matrices
+LAYOUTS1 = ["c", "rev", "flip", "s2", "s-2", "col", "off", "bcast"]
+LAYOUTS2 = ["c", "f", "t", "rrev", "crev", "rs2", "cs2", "sub"]
+
+
+def same_bits(np, v, a):
+    u = {4: np.uint32, 8: np.uint64}[a.dtype.itemsize]
+    return v.shape == a.shape and v.dtype == a.dtype and \
+        np.ascontiguousarray(v).view(u).tolist() == np.ascontiguousarray(a).view(u).tolist()
+
+
+def view1(np, a, lay):
+    """(array with the same logical contents as the contiguous rank-1 array `a`, layout actually
+    used); the padding between / around the entries holds *other* valid entries of `a`, so reading
+    the memory instead of the logical array gives a wrong but well-formed parameter"""
+    n = len(a)
+    g = np.roll(a, 1) if n > 1 else a.copy()
+    if lay == "bcast" and not (n >= 1 and same_bits(np, a, np.repeat(a[:1], n))):
+        lay = "off"
+    if lay == "rev":                                   # stride -1
+        v = a[::-1].copy()[::-1]
+    elif lay == "flip":
+        v = np.flip(np.ascontiguousarray(a[::-1]))
+    elif lay == "s2":                                  # stride 2
+        b = np.empty(2 * n, dtype=a.dtype)
+        b[0::2], b[1::2] = a, g
+        v = b[::2]
+    elif lay == "s-2":                                 # stride -2
+        b = np.empty(2 * n, dtype=a.dtype)
+        b[1::2], b[0::2] = a[::-1], g
+        v = b[::-2]
+    elif lay == "col":                                 # a column of a C-ordered matrix
+        b = np.empty((n, 3), dtype=a.dtype)
+        b[:, 0], b[:, 1], b[:, 2] = g, a, g
+        v = b[:, 1]
+    elif lay == "off":                                 # contiguous, but not at the start of its buffer
+        b = np.concatenate([g[:1]] * 3 + [a] + [g[:1]] * 2) if n else a.copy()
+        v = b[3:3 + n]
+    elif lay == "bcast":                               # stride 0
+        v = np.broadcast_to(a[:1], (n,))
+    else:
+        lay, v = "c", np.ascontiguousarray(a)
+    assert same_bits(np, v, a), lay
+    return v, lay
+
+
+def view2(np, a, lay):
+    """same for a C-ordered matrix `a` (rows = symbols, columns = alphabet)"""
+    n, m = a.shape
+    g = np.roll(a, 1, axis=0) if n > 1 else np.roll(a, 1, axis=1)
+    if lay == "f":
+        v = np.asfortranarray(a)
+    elif lay == "t":
+        v = np.ascontiguousarray(a.T).T
+    elif lay == "rrev":
+        v = np.ascontiguousarray(a[::-1])[::-1]
+    elif lay == "crev":
+        v = np.ascontiguousarray(a[:, ::-1])[:, ::-1]
+    elif lay == "rs2":
+        b = np.empty((2 * n, m), dtype=a.dtype)
+        b[0::2], b[1::2] = a, g
+        v = b[::2]
+    elif lay == "cs2":
+        b = np.empty((n, 2 * m), dtype=a.dtype)
+        b[:, 0::2], b[:, 1::2] = a, g
+        v = b[:, ::2]
+    elif lay == "sub":
+        b = np.empty((n + 2, m + 3), dtype=a.dtype)
+        b[:] = a[0, 0] if a.size else 0
+        b[1:1 + n, 2:2 + m] = a
+        v = b[1:1 + n, 2:2 + m]
+    else:
+        lay, v = "c", np.ascontiguousarray(a)
+    assert same_bits(np, v, a), lay
+    return v, lay
+
+
 class Gen:
     """all randomness of a run derives from (seed, tier)"""
 
@@ -348,10 +439,14 @@ class Gen:
         self.np = np
         self.tag = "seed=%d tier=%s" % (seed, tier)
         self.next_id = 0
+        self.lr = random.Random("pyfront-layout/%d/%s" % (seed, tier))   # memory layouts: own stream
+        self.force = {}            # `layout_sweep` pins some of the random choices below
 
     # ---- helpers
     def length(self):
         r = self.r
+        if "n" in self.force:
+            return self.force["n"]
         k = r.random()
         if k < 0.06:
             return 0
@@ -366,7 +461,7 @@ class Gen:
         return r.randint(150, 200)
 
     def fdtype(self):
-        return self.r.choice([32, 64])
+        return self.force.get("fbits") or self.r.choice([32, 64])
 
     def farray(self, values, fbits):
         np = self.np
@@ -497,18 +592,48 @@ class Gen:
         c = {"id": self.next_id, "tag": self.tag}
         self.next_id += 1
         c.update(kw)
+        self.assign_layouts(c)
         return c
 
+    def assign_layouts(self, c):
+        """memory layout of every numpy array handed to the front end (see `view1` / `view2`); the
+        case itself always records the *logical* contents, which is what the Rust side rebuilds"""
+        lr = self.lr
+        forced = self.force.get("lay")
+
+        def pick(options, p_plain=0.4):
+            if forced in options:
+                return forced
+            return "c" if lr.random() < p_plain else lr.choice(options)
+        if "probe" in c or "expect_words" in c:
+            return
+        if c["model"] == "cat":
+            # a non-contiguous constructor table is refused (TypeError); tried now and then
+            c["lay_p0"] = pick(LAYOUTS2) if c["family"] else pick(LAYOUTS1, 0.85)
+        else:
+            for k in ("p0", "p1"):
+                if c.get(k + "kind") == "a":
+                    c["lay_" + k] = pick(LAYOUTS1)
+        c["lay_s"] = self.force.get("lay_s") or pick(LAYOUTS1, 0.5)
+        c["lay_d"] = lr.choice(["same", "c"])       # layout of the parameter arrays at decode time
+        if c["model"] == "cat" and c["family"]:
+            c["lay_d"] = lr.choice(["same", "c"] + [l for l in LAYOUTS2 if l != "c"])
+        elif c["model"] != "cat" and lr.random() < 0.3:
+            c["lay_d"] = lr.choice(LAYOUTS1[1:-1])
+        c["lay_w"] = pick(LAYOUTS1, 0.5)            # layout of the word array a decoder is built from
+
     def coder(self):
-        return self.r.choices(["ans", "range", "chain"], weights=[45, 40, 15])[0]
+        return self.force.get("coder") or self.r.choices(["ans", "range", "chain"], weights=[45, 40, 15])[0]
 
     def gen_cat_group(self):
         """categorical cases that share inputs: fast / lazy / (family) must give equal words (C05)"""
         r = self.r
         fbits = self.fdtype()
-        variant = r.choices(["fast", "perfect"], weights=[70, 30])[0]
+        variant = self.force.get("variant") or r.choices(["fast", "perfect"], weights=[70, 30])[0]
         k = r.random()
-        if k < 0.15:
+        if "ncols" in self.force:
+            ncols = self.force["ncols"]
+        elif k < 0.15:
             ncols = 2
         elif k < 0.7:
             ncols = r.randint(3, 20)
@@ -518,7 +643,7 @@ class Gen:
             ncols = r.randint(301, 1500) if variant == "fast" else r.randint(100, 300)
         n = self.length()
         coder = self.coder()
-        family = r.random() < 0.4
+        family = self.force.get("family", r.random() < 0.4)
         if family:
             n = min(n, max(1, 3000 // ncols))
             rows, styles = [], []
@@ -568,13 +693,15 @@ class Gen:
         lo, hi = self.support()
         n = self.length()
         fbits = self.fdtype()
-        kinds = r.choice([("s", "s"), ("s", "s"), ("a", "a"), ("a", "a"), ("s", "a"), ("a", "s")])
+        kinds = self.force.get("kinds") or r.choice([("s", "s"), ("s", "s"), ("a", "a"), ("a", "a"), ("s", "a"), ("a", "s")])
         extreme = kinds == ("s", "s") and r.random() < 0.3
         locs, scales = [], []
         for _ in range(max(n, 1)):
             l, s = self.loc_scale(lo, hi, extreme)
             locs.append(l)
             scales.append(s)
+        if self.force.get("const"):
+            locs, scales = [locs[0]] * len(locs), [scales[0]] * len(scales)
         np = self.np
         c = dict(coder=self.coder(), model=model, variant="", fbits=fbits, n=n, lo=lo, hi=hi,
                  p0kind=kinds[0], p1kind=kinds[1])
@@ -616,8 +743,10 @@ class Gen:
             if k < 0.8:
                 return r.randint(2, 1000)
             return r.randint(2, 2**24)
-        kind = r.choice(["s", "a"])
+        kind = self.force.get("kind") or r.choice(["s", "a"])
         sizes = [size() for _ in range(max(n, 1))]
+        if self.force.get("const"):
+            sizes = [sizes[0]] * len(sizes)
         c = dict(coder=self.coder(), model="uniform", variant="", fbits=64, n=n, lo=0, hi=0,
                  p0kind=kind, p1kind="-", p1=[])
         c["p0"] = [sizes[0]] if kind == "s" else sizes[:n]
@@ -631,7 +760,7 @@ class Gen:
         r = self.r
         n = self.length()
         fbits = self.fdtype()
-        kind = r.choice(["s", "a"])
+        kind = self.force.get("kind") or r.choice(["s", "a"])
 
         def p():
             k = r.random()
@@ -639,6 +768,8 @@ class Gen:
                 return r.choice([0.0, 1.0, 0.5, 1e-12, 1.0 - 1e-12, 2.0**-24, 2.0**-25, 1.0 - 2.0**-24])
             return r.random()
         ps = [p() for _ in range(max(n, 1))]
+        if self.force.get("const"):
+            ps = [ps[0]] * len(ps)
         c = dict(coder=self.coder(), model="bernoulli", variant=r.choice(["fast", "perfect"]), fbits=fbits,
                  n=n, lo=0, hi=1, p0kind=kind, p1kind="-", p1=[])
         if kind == "s":
@@ -668,7 +799,7 @@ class Gen:
         np = self.np
         n = self.length()
         fbits = self.fdtype()
-        kinds = r.choice([("s", "s"), ("a", "a"), ("s", "a"), ("a", "s")])
+        kinds = self.force.get("kinds") or r.choice([("s", "s"), ("a", "a"), ("s", "a"), ("a", "s")])
         as_f32 = fbits == 32 and kinds[1] == "a"
 
         def trials():
@@ -710,6 +841,8 @@ class Gen:
         else:
             pairs = [draw() for _ in range(count)]
             ns, ps = [a for a, _ in pairs], [b for _, b in pairs]
+        if self.force.get("const"):
+            ns, ps = [ns[0]] * count, [ps[0]] * count
         assert all(safe(a, b) for a, b in zip(ns, ps)), (ns, ps)
         c = dict(coder=self.coder(), model="binomial", variant="", fbits=fbits, n=n, lo=0, hi=0,
                  p0kind=kinds[0], p1kind=kinds[1])
@@ -746,6 +879,45 @@ class Gen:
                                      probe=1, timeout=3))
         return out
 
+    def layout_sweep(self):
+        """every model family x every memory layout x every coder entry point, deterministically:
+        all parameters per symbol (plus the mixed constructor/call splits for the reversed view)"""
+        groups = []
+        two = {"gauss": self.gen_two_param, "laplace": self.gen_two_param, "cauchy": self.gen_two_param}
+        k = 0
+        for coder in ("ans", "range", "chain"):
+            for lay in LAYOUTS1:
+                if lay == "c":
+                    continue
+                for model in ("gauss", "laplace", "cauchy", "binomial", "bernoulli", "uniform"):
+                    splits = [("a", "a")] if model in two or model == "binomial" else ["a"]
+                    if lay in ("rev", "s-2") and len(splits[0]) == 2:
+                        splits += [("s", "a"), ("a", "s")]
+                    for split in splits:
+                        k += 1
+                        self.force = dict(coder=coder, lay=lay, n=3 + k % 9, fbits=64 if k % 3 else 32,
+                                          lay_s=LAYOUTS1[k % len(LAYOUTS1)], const=(lay == "bcast"))
+                        if model in two:
+                            self.force["kinds"] = split
+                            groups.append(self.gen_two_param(model))
+                        elif model == "binomial":
+                            self.force["kinds"] = split
+                            groups.append(self.gen_binomial())
+                        elif model == "bernoulli":
+                            self.force["kind"] = "a"
+                            groups.append(self.gen_bernoulli())
+                        else:
+                            self.force["kind"] = "a"
+                            groups.append(self.gen_uniform())
+            for lay in LAYOUTS2:
+                for variant in ("fast", "perfect"):
+                    k += 1
+                    self.force = dict(coder=coder, lay=lay, n=2 + k % 5, fbits=64 if k % 2 else 32, family=True,
+                                      variant=variant, ncols=2 + k % 7, lay_s=LAYOUTS1[k % len(LAYOUTS1)])
+                    groups.append(self.gen_cat_group())
+        self.force = {}
+        return groups
+
     def gen_group(self):
         kind = self.r.choices(["cat", "gauss", "laplace", "cauchy", "uniform", "bernoulli", "binomial"],
                               weights=[36, 18, 10, 10, 8, 8, 10])[0]
@@ -776,41 +948,60 @@ class Gen:
         out.append(self.new_case(coder="ans", model="cat", variant="fast", fbits=32, n=8, family=0, ncols=4,
                                  probs=self.fbits_list(probs), msg=[0, 3, 2, 3, 2, 0, 2, 1], style="doc",
                                  expect_words=[2484720979, 175]))
+        # D28 (fixed by a04f314): a Categorical family read an F-ordered probability matrix in memory
+        # order.  Same logical matrix, every rank-2 layout, both `perfect` values, both float types.
+        P = [[0.1, 0.2, 0.3, 0.4], [0.7, 0.1, 0.1, 0.1], [0.25, 0.25, 0.4, 0.1]]
+        for fbits in (64, 32):
+            bits = self.fbits_list(self.farray(P, fbits))
+            for variant in ("fast", "perfect"):
+                words = [28521270] if (fbits, variant) == (32, "fast") else [28521268]
+                for k, lay in enumerate(LAYOUTS2):
+                    c = self.new_case(coder="ans", model="cat", variant=variant, fbits=fbits, n=3, family=1, ncols=4,
+                                      probs=bits, msg=[3, 0, 2], style="doc", expect_words=words)
+                    c.update(lay_p0=lay, lay_s="c", lay_w="c", lay_d=LAYOUTS2[(k + 3) % len(LAYOUTS2)])
+                    out.append(c)
         return out
 
 
-def build_py_model(M, np, c):
-    """(model object, tuple of per-symbol parameter arrays)"""
+def build_py_model(M, np, c, lays=None):
+    """(model object, tuple of per-symbol parameter arrays, {slot: layout actually used});
+    `lays` = {"p0": layout, "p1": layout} for the arrays (default: C-contiguous)"""
+    lays = lays or {}
+    used = {}
     f = np.float32 if c["fbits"] == 32 else np.float64
     u = np.uint32 if c["fbits"] == 32 else np.uint64
 
-    def farr(bits):
-        return np.array(bits, dtype=u).view(f)
+    def farr(bits, slot):
+        v, used[slot] = view1(np, np.array(bits, dtype=u).view(f), lays.get(slot, "c"))
+        return v
     m = c["model"]
     if m == "cat":
         kw = {"fast": dict(perfect=False), "lazy": dict(lazy=True), "perfect": dict(perfect=True)}[c["variant"]]
         if c["family"]:
             if c["variant"] == "lazy":
                 kw = dict(perfect=False)
-            return M.Categorical(**kw), (farr(c["probs"]).reshape(c["n"], c["ncols"]),)
-        return M.Categorical(farr(c["probs"]), **kw), ()
+            mat = np.array(c["probs"], dtype=u).view(f).reshape(c["n"], c["ncols"])
+            v, used["p0"] = view2(np, mat, lays.get("p0", "c"))
+            return M.Categorical(**kw), (v,), used
+        return M.Categorical(farr(c["probs"], "p0"), **kw), (), used
 
-    def slot_f(kind, v):
+    def slot_f(kind, v, slot):
         if kind == "s":
             return bits_f64(v[0]), None
         if kind == "a":
-            return None, farr(v)
+            return None, farr(v, slot)
         return None, None
 
-    def slot_i(kind, v):
+    def slot_i(kind, v, slot):
         if kind == "s":
             return int(v[0]), None
         if kind == "a":
-            return None, np.array(v, dtype=np.int32)
+            arr, used[slot] = view1(np, np.array(v, dtype=np.int32), lays.get(slot, "c"))
+            return None, arr
         return None, None
     if m in ("gauss", "laplace", "cauchy"):
-        s0, a0 = slot_f(c["p0kind"], c["p0"])
-        s1, a1 = slot_f(c["p1kind"], c["p1"])
+        s0, a0 = slot_f(c["p0kind"], c["p0"], "p0")
+        s1, a1 = slot_f(c["p1kind"], c["p1"], "p1")
         cls = {"gauss": M.QuantizedGaussian, "laplace": M.QuantizedLaplace, "cauchy": M.QuantizedCauchy}[m]
         names = {"gauss": ("mean", "std"), "laplace": ("mean", "scale"), "cauchy": ("loc", "scale")}[m]
         kw = {}
@@ -818,35 +1009,47 @@ def build_py_model(M, np, c):
             kw[names[0]] = s0
         if s1 is not None:
             kw[names[1]] = s1
-        return cls(c["lo"], c["hi"], **kw), tuple(a for a in (a0, a1) if a is not None)
+        return cls(c["lo"], c["hi"], **kw), tuple(a for a in (a0, a1) if a is not None), used
     if m == "uniform":
-        s0, a0 = slot_i(c["p0kind"], c["p0"])
-        return (M.Uniform(s0), ()) if s0 is not None else (M.Uniform(), (a0,))
+        s0, a0 = slot_i(c["p0kind"], c["p0"], "p0")
+        return (M.Uniform(s0), (), used) if s0 is not None else (M.Uniform(), (a0,), used)
     if m == "bernoulli":
-        s0, a0 = slot_f(c["p0kind"], c["p0"])
+        s0, a0 = slot_f(c["p0kind"], c["p0"], "p0")
         perfect = c["variant"] == "perfect"
-        return (M.Bernoulli(s0, perfect=perfect), ()) if s0 is not None else (M.Bernoulli(perfect=perfect), (a0,))
+        return (M.Bernoulli(s0, perfect=perfect), (), used) if s0 is not None else (M.Bernoulli(perfect=perfect), (a0,), used)
     if m == "binomial":
-        s0, a0 = slot_i(c["p0kind"], c["p0"])
-        s1, a1 = slot_f(c["p1kind"], c["p1"])
+        s0, a0 = slot_i(c["p0kind"], c["p0"], "p0")
+        s1, a1 = slot_f(c["p1kind"], c["p1"], "p1")
         kw = {}
         if s0 is not None:
             kw["n"] = s0
         if s1 is not None:
             kw["p"] = s1
-        return M.Binomial(**kw), tuple(a for a in (a0, a1) if a is not None)
+        return M.Binomial(**kw), tuple(a for a in (a0, a1) if a is not None), used
     raise ValueError("unknown model " + m)
 
 
-def execute_case(constriction, np, c):
-    """runs the case through the Python API, adds py* fields; returns list of (prop, ok, text)"""
+STAGE = ["enc"]          # which call of `run_python` is in progress (to attribute a refusal)
+
+
+def run_python(constriction, np, c, lays, lay_s, lay_d, lay_w="c"):
+    """one pass of the case through the Python API with the given memory layouts;
+    returns (dict of py* results, decoder-empty flag or None, {slot: layout used})"""
     M = constriction.stream.model
-    checks = []
-    model, params = build_py_model(M, np, c)
+    model, params, used = build_py_model(M, np, c, lays)
+    if lay_d == "same":
+        dparams = params
+    elif lay_d == "c":
+        dparams = build_py_model(M, np, c, {})[1]
+    else:                                   # any other layout name: applied to every parameter array
+        dparams = build_py_model(M, np, c, {"p0": lay_d, "p1": lay_d})[1]
     n = c["n"]
     concrete = len(params) == 0
+    res = {}
+    empty = None
+    STAGE[0] = "enc"
     if c["coder"] in ("ans", "range"):
-        msg = np.array(c["msg"], dtype=np.int32)
+        msg, used["s"] = view1(np, np.array(c["msg"], dtype=np.int32), lay_s)
         scalar = concrete and n == 1 and c["id"] % 2 == 0     # the single-symbol entry points
         if c["coder"] == "ans":
             enc = constriction.stream.stack.AnsCoder()
@@ -855,7 +1058,8 @@ def execute_case(constriction, np, c):
             else:
                 enc.encode_reverse(msg, model, *params)
             words = enc.get_compressed()
-            dec = constriction.stream.stack.AnsCoder(words)
+            wview, used["w"] = view1(np, words, lay_w)
+            dec = constriction.stream.stack.AnsCoder(wview)
         else:
             enc = constriction.stream.queue.RangeEncoder()
             if scalar:
@@ -863,43 +1067,113 @@ def execute_case(constriction, np, c):
             else:
                 enc.encode(msg, model, *params)
             words = enc.get_compressed()
-            dec = constriction.stream.queue.RangeDecoder(words)
+            wview, used["w"] = view1(np, words, lay_w)
+            dec = constriction.stream.queue.RangeDecoder(wview)
+        STAGE[0] = "dec"
         if scalar:
             decoded = np.array([dec.decode(model)], dtype=np.int32)
         elif concrete:
             decoded = dec.decode(model, n)
         else:
-            decoded = dec.decode(model, *params)
-        c["pywords"] = [int(w) for w in words.tolist()]
-        c["pydecoded"] = [int(s) for s in np.asarray(decoded).tolist()]
+            decoded = dec.decode(model, *dparams)
+        res["pywords"] = [int(w) for w in words.tolist()]
+        res["pydecoded"] = [int(s) for s in np.asarray(decoded).tolist()]
+        if c["coder"] == "ans":
+            empty = bool(dec.is_empty())
+    else:
+        data, used["w"] = view1(np, np.array(c["data"], dtype=np.uint32), lay_w)
+        coder = constriction.stream.chain.ChainCoder(data, False, True)
+        STAGE[0] = "dec"
+        if concrete:
+            decoded = coder.decode(model, n)
+        else:
+            decoded = coder.decode(model, *dparams)
+        decoded = np.asarray(decoded, dtype=np.int32)
+        prefix, suffix = coder.get_remainders()
+        again, used["s"] = view1(np, decoded, lay_s)
+        STAGE[0] = "enc"
+        coder.encode_reverse(again, model, *params)
+        rp, rs = coder.get_data(unseal=True)
+        res["pydecoded"] = [int(s) for s in decoded.tolist()]
+        res["pyprefix"] = [int(w) for w in prefix.tolist()]
+        res["pysuffix"] = [int(w) for w in suffix.tolist()]
+        res["pyrecprefix"] = [int(w) for w in rp.tolist()]
+        res["pyrecsuffix"] = [int(w) for w in rs.tolist()]
+        res["pywords"] = res["pysuffix"]
+    return res, empty, used
+
+
+def execute_case(constriction, np, c):
+    """runs the case through the Python API, adds py* fields;
+    returns (list of (prop, ok, text), list of extra oracle lines)"""
+    checks, lines = [], []
+    lays = {k: c["lay_" + k] for k in ("p0", "p1") if ("lay_" + k) in c}
+    lay_s, lay_d, lay_w = c.get("lay_s", "c"), c.get("lay_d", "same"), c.get("lay_w", "c")
+    plain = all(v == "c" for v in lays.values()) and lay_d in ("same", "c")
+    def refused(e):
+        return isinstance(e, TypeError) and "not contiguous" in str(e)
+    try:
+        try:
+            res, empty, used = run_python(constriction, np, c, lays, lay_s, lay_d, lay_w)
+        except TypeError as e:
+            # a clean refusal of a non-contiguous probability table is legal: first at decode time ...
+            if not refused(e) or plain or lay_d in ("same", "c") or STAGE[0] != "dec":
+                raise
+            lines.append("HIST C06.py.layout_refused.%s.%s@decode 1" % (c["model"], lay_d))
+            lines.append("HIST C06.py.layout_refused_total 1")
+            lay_d = "c"
+            res, empty, used = run_python(constriction, np, c, lays, lay_s, lay_d, lay_w)
+    except TypeError as e:
+        # ... then at encode time / in the constructor: go on with the contiguous table
+        if not refused(e) or all(v == "c" for v in lays.values()):
+            raise
+        for k, v in lays.items():
+            if v != "c":
+                lines.append("HIST C06.py.layout_refused.%s.%s 1" % (c["model"], v))
+                lines.append("HIST C06.py.layout_refused_total 1")
+        lays = {k: "c" for k in lays}
+        lay_d = "same"
+        res, empty, used = run_python(constriction, np, c, lays, lay_s, lay_d, lay_w)
+    except Exception as e:
+        if plain:
+            raise
+        # the same case with contiguous arrays: if that works, the memory layout is to blame (C06: the
+        # stream must depend on the logical contents of the arrays only)
+        res, empty, used = run_python(constriction, np, c, {k: "c" for k in lays}, lay_s, "same", lay_w)
+        checks.append(("C06", False, "coding raises %s: %s with parameter layouts %s (decode-time layout %s), but works with "
+                       "C-contiguous copies of the same arrays" % (type(e).__name__, one_line(e, 120), lays, lay_d)))
+        used.update(lays)
+    for k, v in lays.items():
+        if v != "c" and used.get(k) == v and c["model"] == "cat":
+            lines.append("HIST C06.py.layout_accepted.cat.%s 1" % v)
+            lines.append("HIST C06.py.layout_accepted_total 1")
+    for k in ("p0", "p1"):
+        c.pop("lay_" + k, None)
+        if k in used:
+            c["lay_" + k] = used[k]
+            if c["model"] != "cat" or c["family"]:
+                lines.append("HIST C06.py.layout.%s.%s 1" % (c["model"], used[k]))
+    c["lay_s"], c["lay_w"], c["lay_d"] = used.get("s", "c"), used.get("w", "c"), lay_d
+    lines.append("HIST C06.py.layout.symbols.%s 1" % c["lay_s"])
+    lines.append("HIST C06.py.layout.words.%s 1" % c["lay_w"])
+    c.update(res)
+    if c["coder"] in ("ans", "range"):
         prop = "C01" if c["coder"] == "ans" else "C02"
         checks.append((prop, c["pydecoded"] == c["msg"], "decode(encode(msg)) != msg: decoded=%s" % c["pydecoded"]))
+        if not plain or lay_d != "same":
+            checks.append(("C06", c["pydecoded"] == c["msg"],
+                           "symbols encoded with parameter layouts %s do not come back when decoding with layout `%s` of the "
+                           "same arrays: decoded=%s" % (lays, lay_d, c["pydecoded"])))
         if c["coder"] == "ans":
-            checks.append(("C01", bool(dec.is_empty()), "decoder not empty after decoding all symbols"))
+            checks.append(("C01", bool(empty), "decoder not empty after decoding all symbols"))
         if "expect_words" in c:
             checks.append(("C06", c["pywords"] == c["expect_words"],
                            "documented words %s, python produced %s" % (c["expect_words"], c["pywords"])))
     else:
-        data = np.array(c["data"], dtype=np.uint32)
-        coder = constriction.stream.chain.ChainCoder(data, False, True)
-        if concrete:
-            decoded = coder.decode(model, n)
-        else:
-            decoded = coder.decode(model, *params)
-        decoded = np.asarray(decoded, dtype=np.int32)
-        prefix, suffix = coder.get_remainders()
-        coder.encode_reverse(decoded, model, *params)
-        rp, rs = coder.get_data(unseal=True)
-        c["pydecoded"] = [int(s) for s in decoded.tolist()]
-        c["pyprefix"] = [int(w) for w in prefix.tolist()]
-        c["pysuffix"] = [int(w) for w in suffix.tolist()]
-        c["pyrecprefix"] = [int(w) for w in rp.tolist()]
-        c["pyrecsuffix"] = [int(w) for w in rs.tolist()]
-        c["pywords"] = c["pysuffix"]
         c.pop("msg", None)
         checks.append(("C13", c["pyrecprefix"] == [] and c["pyrecsuffix"] == c["data"],
                        "decode then encode_reverse does not restore the data: got (%s, %s)" % (c["pyrecprefix"], c["pyrecsuffix"])))
-    return checks
+    return checks, lines
 
 
 def case_label(c):
@@ -928,6 +1202,7 @@ def all_groups(g, tier):
     groups = [[c] for c in g.documented_cases()]
     for _ in range(n_groups(tier)):
         groups.append(g.gen_group())
+    groups.extend(g.layout_sweep())
     groups.extend([c] for c in g.hang_probes())
     return groups
 
@@ -948,7 +1223,7 @@ def worker_gen(seed, tier, out_path, start_group=0, only_id=None):
             for c in group:
                 proto.line("RUNNING %d timeout=%s %s %s" % (c["id"], c.get("timeout", CASE_TIMEOUT), case_label(c), short_case(c)))
                 try:
-                    checks = execute_case(constriction, np, c)
+                    checks, extra_lines = execute_case(constriction, np, c)
                 except BaseException as e:
                     # valid inputs by construction: an exception here is a front-end problem
                     prop = PROP_OF_CODER[c["coder"]]
@@ -965,6 +1240,8 @@ def worker_gen(seed, tier, out_path, start_group=0, only_id=None):
                         proto.line("FAIL %s python front end [%s case %d %s]: %s case=%s"
                                    % (prop, g.tag, c["id"], case_label(c), one_line(text, 500), short_case(c)))
                 proto.line("HIST C06.py.coder.%s 1" % c["coder"])
+                for l in extra_lines:
+                    proto.line(l)
                 if c["model"] == "cat":
                     proto.line("HIST C06.py.cat.table.%s 1" % c.get("style", "?"))
                 done.append(c)
@@ -1008,7 +1285,9 @@ def harness_binary(rep):
 
 
 def campaign_diff(rep, seed, tier, only_id=None):
-    cases = os.path.join(so_dir(), "cases.jsonl" if only_id is None else "case-%d.jsonl" % only_id)
+    # one file per process: several `check` runs may drive this tool for the same repository at once
+    cases = os.path.join(so_dir(), ("cases-%d-%s-%d.jsonl" % (seed, tier, os.getpid())) if only_id is None
+                         else "case-%d.jsonl" % only_id)
     open(cases, "w").close()
     start, restarts, finished = 0, 0, False
     while restarts <= 25:
@@ -1065,6 +1344,8 @@ def campaign_diff(rep, seed, tier, only_id=None):
         rep.error("%s pyfront exited with %s: %s" % (h, p.returncode, one_line(p.stderr[-300:])))
     elif seen != written:
         rep.error("%s evaluated %d of %d cases (stale binary without the pyfront subcommand?)" % (h, seen, written))
+    if only_id is None and not rep.fails and not rep.errors and not os.environ.get("PYFRONT_KEEP"):
+        os.remove(cases)          # (`pyfront.py case <seed> <tier> <id>` regenerates any case)
     return cases
 
 
@@ -1079,6 +1360,50 @@ def arr(v, dt=f64): return np.array(v, dtype=dt)
 def syms(v): return np.array(v, dtype=np.int32)
 def ans(): return constriction.stream.stack.AnsCoder()
 def rng(): return constriction.stream.queue.RangeEncoder()
+
+class Broken(Exception):
+    pass
+
+def split(tag, make, params, lo, hi, n=5):
+    '''`tag` = "Family|which parameter is given where|invalid value@position".  Builds the model
+    (`make()`, may raise) and codes, for every in-support symbol s, the message [s]*n with the
+    per-symbol parameter arrays `params` through AnsCoder and RangeEncoder/RangeDecoder.  Either
+    every such call raises (the invalid value is rejected: the first exception is re-raised), or
+    every message must round-trip; anything else means an invalid parameter was accepted and
+    produced a broken model (`Broken`).'''
+    model = make()
+    first_exc, n_exc, n_ok, bad = None, 0, 0, None
+    for coder in ("ans", "range"):
+        for s in range(lo, hi + 1):
+            msg = np.full(n, s, dtype=np.int32)
+            try:
+                if coder == "ans":
+                    e = ans()
+                    e.encode_reverse(msg, model, *params)
+                    d = constriction.stream.stack.AnsCoder(e.get_compressed())
+                else:
+                    e = rng()
+                    e.encode(msg, model, *params)
+                    d = constriction.stream.queue.RangeDecoder(e.get_compressed())
+                got = d.decode(model, *params) if params else d.decode(model, n)
+                got = [int(x) for x in np.asarray(got).tolist()]
+                if got == [s] * n:
+                    n_ok += 1
+                elif bad is None:
+                    bad = "%s: [%d]*%d decodes to %s" % (coder, s, n, got)
+            except BaseException as ex:
+                n_exc += 1
+                if first_exc is None:
+                    first_exc = (coder, s, ex)
+    total = 2 * (hi - lo + 1)
+    if n_exc == total:
+        raise first_exc[2]
+    if n_ok == total:
+        return "accepted; all %d in-support symbols round-trip through both coders" % (hi - lo + 1)
+    if bad is None:
+        bad = "%s: coding [%d]*%d raises %s: %s (but %d of %d other messages are coded)" % (
+            first_exc[0], first_exc[1], n, type(first_exc[2]).__name__, " ".join(str(first_exc[2]).split())[:80], total - n_exc, total)
+    raise Broken("%s accepted, model broken (%d of %d messages round-trip): %s" % (tag, n_ok, total, bad))
 """
 
 # (expression, symbols that a returned model must be able to round-trip | None = the expression is
@@ -1398,9 +1723,103 @@ def random_ctor_cases(seed, tier):
     return out
 
 
+def split_ctor_cases():
+    """every parameterised family x every way of splitting its parameters between the constructor
+    and the encode/decode call x invalid values, at the constructor and at the first / middle /
+    last position of a per-symbol array (see `split` in CTOR_PRELUDE for the verdict)"""
+    out = []
+    nan, inf = float("nan"), float("inf")
+
+    def fl(x):
+        if isinstance(x, int):
+            return str(x)
+        return repr(x) if math.isfinite(x) else ("nan" if x != x else ("inf" if x > 0 else "-inf"))
+
+    def farr(vals, dt="f64"):
+        return "arr([%s], %s)" % (", ".join(fl(v) for v in vals), dt)
+
+    def iarr(vals):
+        return "syms([%s])" % ", ".join(str(v) for v in vals)
+
+    def at(valid, bad, pos):
+        v = [valid] * 5
+        v[pos] = bad
+        return v
+    POS = (("first", 0), ("middle", 2), ("last", 4))
+
+    def add(family, how, what, make, params, lo, hi):
+        tag = "%s|%s|%s" % (family, how, what)
+        out.append(('split("%s", lambda: %s, (%s), %d, %d)' % (tag, make, "".join(p + ", " for p in params), lo, hi), None))
+    # location / scale families
+    for cls, ln, sn in (("QuantizedGaussian", "mean", "std"), ("QuantizedLaplace", "mean", "scale"),
+                        ("QuantizedCauchy", "loc", "scale")):
+        for which, valid_other, bads in ((sn, 1.5, (-3.0, 0.0, -0.0, nan, inf, -inf)), (ln, 2.0, (nan, inf, -inf))):
+            other = ln if which == sn else sn
+            for bad in bads:
+                kw = lambda **d: ", ".join("%s=%s" % (k, fl(v)) for k, v in d.items())
+                both = {which: bad, other: valid_other}
+                add(cls, "%s@ctor+%s@ctor" % (ln, sn), "%s=%s" % (which, fl(bad)),
+                    "M.%s(-10, 10, %s)" % (cls, kw(**both)), [], -10, 10)
+                add(cls, "%s@ctor+%s@call" % (which, other), "%s=%s" % (which, fl(bad)),
+                    "M.%s(-10, 10, %s)" % (cls, kw(**{which: bad})), [farr([valid_other] * 5)], -10, 10)
+                for pname, pos in (POS if which == sn else POS[1:2]):
+                    for dt in (("f64", "f32") if pname == "middle" else ("f64",)):
+                        arrs = {which: farr(at(2.0 if which == sn else 1.5, bad, pos), dt), other: farr([valid_other] * 5, dt)}
+                        add(cls, "%s@call+%s@call" % (ln, sn), "%s=%s@%s/%s" % (which, fl(bad), pname, dt),
+                            "M.%s(-10, 10)" % cls, [arrs[ln], arrs[sn]], -10, 10)
+                        add(cls, "%s@ctor+%s@call" % (other, which), "%s=%s@%s/%s" % (which, fl(bad), pname, dt),
+                            "M.%s(-10, 10, %s)" % (cls, kw(**{other: valid_other})), [arrs[which]], -10, 10)
+    # Bernoulli
+    for perfect in ("True", "False"):
+        for bad in (-0.1, 1.5, nan, inf, -inf):
+            add("Bernoulli", "p@ctor", "p=%s/perfect=%s" % (fl(bad), perfect), "M.Bernoulli(%s, perfect=%s)" % (fl(bad), perfect), [], 0, 1)
+            for pname, pos in POS:
+                add("Bernoulli", "p@call", "p=%s@%s/perfect=%s" % (fl(bad), pname, perfect),
+                    "M.Bernoulli(perfect=%s)" % perfect, [farr(at(0.3, bad, pos))], 0, 1)
+            add("Bernoulli", "p@call", "p=%s@middle/f32/perfect=%s" % (fl(bad), perfect),
+                "M.Bernoulli(perfect=%s)" % perfect, [farr(at(0.3, bad, 2), "f32")], 0, 1)
+    # Binomial
+    for which, bads in (("p", (-0.5, 2.0, nan, inf, -inf)), ("n", (-1, 0))):
+        for bad in bads:
+            nn, pp = (5, bad) if which == "p" else (bad, 0.3)
+            what = "%s=%s" % (which, fl(bad))
+            add("Binomial", "n@ctor+p@ctor", what, "M.Binomial(%s, %s)" % (fl(nn), fl(pp)), [], 0, 5)
+            if which == "p":
+                add("Binomial", "p@ctor+n@call", what, "M.Binomial(p=%s)" % fl(bad), [iarr([5] * 5)], 0, 5)
+            else:
+                add("Binomial", "n@ctor+p@call", what, "M.Binomial(n=%d)" % bad, [farr([0.3] * 5)], 0, 5)
+            for pname, pos in POS:
+                ns = iarr(at(5, bad, pos)) if which == "n" else iarr([5] * 5)
+                ps = farr(at(0.3, bad, pos)) if which == "p" else farr([0.3] * 5)
+                add("Binomial", "n@call+p@call", what + "@" + pname, "M.Binomial()", [ns, ps], 0, 5)
+                if which == "p":
+                    add("Binomial", "n@ctor+p@call", what + "@" + pname, "M.Binomial(n=5)", [ps], 0, 5)
+                else:
+                    add("Binomial", "p@ctor+n@call", what + "@" + pname, "M.Binomial(p=0.3)", [ns], 0, 5)
+    # Uniform
+    for bad in (0, 1, -3, 2**24 + 1):
+        add("Uniform", "size@ctor", "size=%d" % bad, "M.Uniform(%d)" % bad, [], 0, 6)
+        for pname, pos in POS:
+            add("Uniform", "size@call", "size=%d@%s" % (bad, pname), "M.Uniform()", [iarr(at(7, bad, pos))], 0, 6)
+    # Categorical: rows of a family
+    good = "[0.2, 0.5, 0.3]"
+    for perfect in ("True", "False"):
+        for name, row in (("negative", "[0.2, -0.5, 0.3]"), ("nan", "[0.2, nan, 0.3]"), ("inf", "[0.2, inf, 0.3]"),
+                          ("zeros", "[0.0, 0.0, 0.0]")):
+            add("Categorical", "probabilities@ctor", "row=%s/perfect=%s" % (name, perfect),
+                "M.Categorical(arr(%s), perfect=%s)" % (row, perfect), [], 0, 2)
+            for pname, pos in POS:
+                rows = [good] * 5
+                rows[pos] = row
+                for dt in (("f64", "f32") if pname == "middle" else ("f64",)):
+                    add("Categorical", "probabilities@call", "row=%s@%s/%s/perfect=%s" % (name, pname, dt, perfect),
+                        "M.Categorical(perfect=%s)" % perfect, ["arr([%s], %s)" % (", ".join(rows), dt)], 0, 2)
+    return out
+
+
 def all_ctor_cases(seed, tier):
     out, seen = [], set()
-    for expr, msg in list(FIXED_CTOR_CASES) + random_ctor_cases(seed, tier):
+    for expr, msg in list(FIXED_CTOR_CASES) + split_ctor_cases() + random_ctor_cases(seed, tier):
         if expr not in seen:
             seen.add(expr)
             out.append((expr, msg))
@@ -1423,6 +1842,8 @@ def worker_ctor(seed, tier, start, only=False):
             obj = eval(expr, env)
         except Exception as e:
             outcome, detail = "raise", "%s: %s" % (type(e).__name__, one_line(e, 160))
+            if type(e).__name__ == "Broken":
+                outcome, detail = "broken", one_line(e, 400)
             obj = None
         except BaseException as e:
             name = type(e).__name__
@@ -1430,7 +1851,9 @@ def worker_ctor(seed, tier, start, only=False):
             detail = "%s.%s: %s" % (type(e).__module__, name, one_line(e, 160))
             obj = None
         if outcome is None:
-            if msg is None or not isinstance(obj, M.Model):
+            if isinstance(obj, str):
+                outcome, detail = "ok", obj
+            elif msg is None or not isinstance(obj, M.Model):
                 outcome, detail = "ok", "returned %s" % type(obj).__name__
             else:
                 outcome, detail = roundtrip(constriction, np, obj, msg)
@@ -1525,6 +1948,9 @@ def campaign_ctor(rep, seed, tier, only_idx=None):
         rep.eval("C19")
         rep.count("C19.py.outcome.%s" % outcome)
         kind = expr.split("(")[0].replace("M.", "").replace("constriction.stream.", "")
+        if expr.startswith('split("'):
+            fam, how = expr[7:].split('"', 1)[0].split("|")[:2]
+            kind = "split.%s.%s" % (fam, how)
         rep.count("C19.py.%s.%s" % (kind, outcome))
         replay = "[replay: tools/pyfront.py ctor %d %s %d]" % (seed, tier, idx)
         if outcome in ("abort", "broken", "hang", "raise-base") or (outcome in ("panic", "panic-late") and PANIC_IS_FAIL):
